@@ -30,3 +30,14 @@ pub use prelude::*;
 
 #[cfg(any(test, feature = "test_utils"))]
 pub mod test_utils;
+
+/// Verification hook (`--features verif`): names the I/O types an external [`IoEngine`] implementation
+/// has to mention. Re-exports only; no behaviour is added or changed.
+#[cfg(feature = "verif")]
+pub mod verif {
+    pub use crate::io::{
+        bytes::{IoB, IoBuf, IoBufMut, IoSlice, IoSliceMut, Raw},
+        device::{Partition, PartitionId},
+        engine::IoEngineBuildContext,
+    };
+}
